@@ -385,12 +385,15 @@ def gen_scalar(tree):
         elif isinstance(s, ast.Assign) and len(s.targets) == 1 and isinstance(s.targets[0], ast.Name) \
                 and s.targets[0].id != "inp" and is_text(s.value):
             continue    # message text
-        elif isinstance(s, ast.If) and ast.unparse(s.test) == "not isinstance(inp, numbers.Number)" \
+        elif isinstance(s, ast.If) and ast.unparse(s.test) in ("not isinstance(inp, numbers.Number)",
+                                                                "not isinstance(inp, numbers.Real)") \
                 and not s.orelse and len(s.body) == 1 and is_raise_bad(s.body[0]):
             if state != "raw":
                 fail(s, "type test order")
             state = "number"
-            lines.append(f"(* {src} *)\nmatch inp with SNone | SNotNumber => SRejected | _ =>")
+            # complex is a numbers.Number but not a numbers.Real
+            rej = "SNone | SNotNumber" + (" | SComplex" if "numbers.Real" in ast.unparse(s.test) else "")
+            lines.append(f"(* {src} *)\nmatch inp with {rej} => SRejected | _ =>")
             closers += 1
         elif ast.unparse(s) == "inp = float(inp)":
             if state != "number":
